@@ -198,6 +198,21 @@ def ob_machine(is_cross):
             check(eq(list(gsb), [sb] if give_sb else list(gotb)), 'cross build: sub:build.opt is its own option (own value, else the parent\'s build value)')
         else:
             check(eq(list(gsb), exp_sh), 'native build: sub:build.opt is sub:opt')
+        # ... and a second subproject whose OWN project(default_options) sets the host and / or the build-machine option (step 2 of the order): an un-prefixed
+        # value from the machine file or the command line (steps 3-4) beats it, the parent's default_options (step 1) do not - per machine
+        if is_cross:
+            oh = sym_str(1, 'own_host_default', alphabet='ij'); ob_ = sym_str(1, 'own_build_default', alphabet='kl')
+            own_h = decide(sym_bool('own_host_default_given')); own_b = decide(sym_bool('own_build_default_given'))
+            own = {}
+            if own_h: own[kh] = [oh]
+            if own_b: own[kb] = [ob_]
+            store.initialize_from_subproject_call('sub2', {}, own, cmd, mach)
+            g2h = store.get_value_for(kh.evolve(subproject='sub2')); g2b = store.get_value_for(kb.evolve(subproject='sub2'))
+            glob_h = give_h and src in (1, 2); glob_b = give_b and src in (1, 2)
+            exp_h = [hv] if glob_h else ([oh] if own_h else list(goth))
+            exp_b = [bv] if glob_b else ([ob_] if own_b else list(gotb))
+            check(eq(list(g2h), exp_h), 'subproject host option: machine file / command line value, else its own default, else the parent\'s')
+            check(eq(list(g2b), exp_b), 'subproject build-machine option: machine file / command line build. value, else its own build. default, else the parent\'s')
         cover('done')
     return h
 
